@@ -12,10 +12,10 @@ EXTENDS Factor, TLC, Json
 Lq == {0, 1, -1}
 Lt == {0, 1, -1}
 Dq == {1, -2}
-Dt == {1, -1, 2, -4, 8}
+Dt == {1, -2, 4}
 Oq == {0, 1}
-Ot == {0, 1, -1, 2}
-CONSTANTS NSet, LNum, DNum, ONum      \* L entries LNum/2, pivots from DNum, upper off-diagonal from ONum
+Ot == {0, 1, -1}
+CONSTANTS NSet, NPlu, LNum, DNum, ONum      \* orders (NPlu: orders for the LU generator, whose count grows fastest); L entries LNum/2, pivots from DNum, upper off-diagonal from ONum
 VARIABLES kind, nn, mat, aux
 Half(x) == RNorm(x, 2)
 Perms(n) == {q \in [1..n -> 1..n] : {q[k] : k \in 1..n} = 1..n}
@@ -27,7 +27,7 @@ MkD(n, d) == MatR(n, LAMBDA r, c : IF r = c THEN RQ(d[r]) ELSE RQ(0))
 MkM(n, d, f) == MatR(n, LAMBDA r, c : IF r = c THEN RQ(d[r]) ELSE IF r > c THEN Half(f[<<r, c>>]) ELSE RQ(0))
 PermT(n, q, X) == MatR(n, LAMBDA r, c : E(X, n, q[r], c))
 Init == kind = "none" /\ nn = 0 /\ mat = <<>> /\ aux = 0
-GenPlu == \E n \in NSet : \E f \in [StrictLower(n) -> LNum], d \in [1..n -> DNum], g \in [StrictUpper(n) -> ONum], q \in Perms(n), z \in 0..n :
+GenPlu == \E n \in NPlu : \E f \in [StrictLower(n) -> LNum], d \in [1..n -> DNum], g \in [StrictUpper(n) -> ONum], q \in Perms(n), z \in 0..n :
             /\ kind' = (IF z = 0 THEN "plu" ELSE "plu_sing") /\ nn' = n /\ aux' = z
             \* z > 0: the z-th pivot is made zero: exactly singular
             /\ mat' = PermT(n, q, MulR(MkL(n, f), MkU(n, [k \in 1..n |-> IF k = z THEN 0 ELSE d[k]], g), n))
